@@ -12,7 +12,7 @@ use flsrc::search::Searcher;
 use refchess::{Kind, Pos};
 use serde_json::{json, Value};
 
-pub const RULE: &str = "(1) public API: positions from the C01 mixture plus discovered-check motifs (by ep capture removing two men from a line, by castling, by promotion / under-promotion), mover NOT in check: multiset(generate_quiescence_moves(p)) == { m legal : m captures (incl. ep) or promotes or the opponent's king is attacked after m }, computed entirely by the reference. (1b) ENUMERATED check-geometry grid (grid.rs) through the same public entry point: every direct check by every kind of man from every square (promotions giving check backwards through the vacated square), every discovered check (every slider line x every blocker kind x every in-between square), castling with the enemy king on every square (check on the file and along the back rank), en-passant captures with the enemy king on every square and an own slider on every aligned square (direct check, discovery by the capturer, by the victim, by both), en-passant pins; each also colour-mirrored and with one man of the other side added. (2) what the search actually iterates over: with recording switched on (hook, one inserted line after search_until_quiet has chosen its list) find_best_move(p, 1..2) is run and for every recorded quiescence node: if its mover is in check the list must be ALL reference-legal moves, else the set of (1); the recorded in-check flag must agree with the reference. (3) deep lines: full middlegame / game / pool positions searched to depth 1..4, or the quiescence search called directly (hook verif_quiesce) with a generated window around the static value, under a node cap; only nodes at least 10 plies below the horizon are recorded and judged as in (2) — the statement puts no bound on how far beyond the nominal depth the rule holds; the deepest level reached is reported. Non-trivial = position has >=1 quiet checking move or >=1 discovered check, or is in check; distinct by FEN.";
+pub const RULE: &str = "(1) public API: positions from the C01 mixture plus discovered-check motifs (by ep capture removing two men from a line, by castling, by promotion / under-promotion), mover NOT in check: multiset(generate_quiescence_moves(p)) == { m legal : m captures (incl. ep) or promotes or the opponent's king is attacked after m }, computed entirely by the reference. (1b) ENUMERATED check-geometry grid (grid.rs) through the same public entry point: every direct check by every kind of man from every square (promotions giving check backwards through the vacated square), every discovered check (every slider line x every blocker kind x every in-between square), castling with the enemy king on every square (check on the file and along the back rank), en-passant captures with the enemy king on every square and an own slider on every aligned square (direct check, discovery by the capturer, by the victim, by both), en-passant pins; each also colour-mirrored and with one man of the other side added. After a position with castling rights the same placement with every smaller set of rights is asked on the same generator, and the original again. (2) what the search actually iterates over: with recording switched on (hook, one inserted line after search_until_quiet has chosen its list) find_best_move(p, 1..2) is run and for every recorded quiescence node: if its mover is in check the list must be ALL reference-legal moves, else the set of (1); the recorded in-check flag must agree with the reference. (3) deep lines: full middlegame / game / pool positions searched to depth 1..4, or the quiescence search called directly (hook verif_quiesce) with a generated window around the static value, under a node cap; only nodes at least 10 plies below the horizon are recorded and judged as in (2) — the statement puts no bound on how far beyond the nominal depth the rule holds; the deepest level reached is reported. Non-trivial = position has >=1 quiet checking move or >=1 discovered check, or is in check; distinct by FEN.";
 
 fn classify(p: &Pos, stats: &mut Stats) -> bool {
     // quiet checking moves and discovered checks (the moved man does not itself attack the king)
@@ -81,6 +81,9 @@ fn part_api(bytes: &[u8], stats: &mut Stats) -> Verdict {
         _ => gen::g_motif_n(&mut s, 11),
     };
     judge_api(&p, stats)?;
+    if s.chance(50) {
+        rights_twins(&p, stats)?;
+    }
     // a look-alike right afterwards on the same generator: same side to move, same king squares,
     // same occupied squares — two men of the mover have exchanged their kinds (whatever the
     // generator remembers about the previous position must not leak into this one)
@@ -370,8 +373,32 @@ fn judge_grid(it: &crate::grid::GridItem, stats: &mut Stats) -> Verdict {
     stats.class(crate::grid::describe(it));
     eng::set_counter_wish(0, 1);
     judge_api(&p, stats)?;
+    rights_twins(&p, stats)?;
     if let Some(q) = crate::grid::with_defender(it, &p) {
         judge_api(&q, stats)?;
+    }
+    Ok(())
+}
+
+/// The same placement with other castling rights (every proper subset of the rights `p` has is a
+/// valid position too), asked on the same generator right after `p`, and `p` once more: what the
+/// generator has just answered for a position that LOOKS the same must not leak.
+fn rights_twins(p: &Pos, stats: &mut Stats) -> Verdict {
+    if !p.castle.iter().any(|c| *c) {
+        return Ok(());
+    }
+    let held: Vec<usize> = (0..4).filter(|i| p.castle[*i]).collect();
+    for mask in 0..(1u32 << held.len()) - 1 {
+        let mut q = p.clone();
+        for (j, i) in held.iter().enumerate() {
+            q.castle[*i] = mask & (1 << j) != 0;
+        }
+        if !q.is_valid() {
+            continue;
+        }
+        stats.class("same_placement_other_castling_rights_judged_on_the_same_generator");
+        judge_api(&q, stats)?;
+        judge_api(p, stats)?;
     }
     Ok(())
 }
@@ -396,7 +423,10 @@ pub fn replay(part: &str, bytes: &[u8], case: &Value, stats: &mut Stats) -> Verd
     match part {
         "recorded" => part_recorded(bytes, stats),
         "deep" => {
-            DEEP_CAP.with(|c| c.set(6_000_000));
+            // replays run in every tier: a cap that keeps them to seconds (the saved cases were found
+            // under the quick tier's cap of 400 000 nodes)
+            let cap = std::env::var("VERIF_DEEP_REPLAY_CAP").ok().and_then(|x| x.parse().ok()).unwrap_or(1_200_000u64);
+            DEEP_CAP.with(|c| c.set(cap));
             part_deep(bytes, stats)
         }
         _ => part_api(bytes, stats),
